@@ -62,7 +62,7 @@ def close(a, b, via_file):
     b = np.asarray(b, float)
     if not via_file:
         return np.array_equal(a, b)
-    return bool(np.all(np.abs(a - b) <= 5e-7 + 1e-12 * np.abs(b)))
+    return bool(np.all(np.abs(a - b) <= 5.1e-7 + 1e-12 * np.abs(b)))
 
 
 def check_sg_table(out, sg, exp, reset, via_file, sig):
